@@ -236,3 +236,93 @@ Definition split_step (k : consts) (esc : bool) (thr : nat -> Z * verdict) (s : 
 
 Definition split_run (k : consts) (esc : bool) (thr : nat -> Z * verdict) (s : rl) (sched : list gstep) : gstate :=
   fold_left (split_step k esc thr) sched {| g_entry := s; g_copies := []; g_outs := [] |}.
+
+(* ---------------------------------------------------------------------------------------------
+   The read source of the user's profile.  validateUserTOTP starts with LoadUserProfile, which
+   answers from the CACHE database (fromCache = true) when the primary profile database does not
+   answer within remoteDBQueryTimeout.  What the function does with that bit:
+
+     * the throttle record totpLocalRateLimit[user] lives in memory: spacing test, lock-out test,
+       quiet-period reset, failure count, lock-out extension are the same statements on both paths;
+     * the replay guard compares the matching step with max(profile.LastSuccessfullTOTPCounter,
+       record.lastSuccessCounter); on success the step is remembered in the record on both paths and
+       written to the profile only when the profile did not come from the cache.
+
+   Here what the submitted code is worth is no longer an environment verdict: the op carries the
+   code (`Wrong`, or `Matches n` = it is the code of step n of an enabled device) and the verdict is
+   what the guard makes of it.  `Cached o` is the request modifier (as in Model/Session.v): the
+   request of o made while the primary does not answer in time.  A cleanup pass reads no profile. *)
+Inductive code := Wrong | Matches (n : Z).
+
+Record tst := { thr : rl; mem : Z; persisted : Z }.
+Definition tst0 : tst := {| thr := rl0; mem := 0; persisted := 0 |}.
+Definition guard (s : tst) : Z := Z.max (persisted s) (mem s).
+
+Definition verdict_of_code (s : tst) (c : code) : verdict :=
+  match c with
+  | Wrong => NoMatch
+  | Matches n => if n <=? guard s then Replay else Fresh
+  end.
+
+Inductive cop := CAtt (t : Z) (c : code) | CCleanup (now : Z).
+Inductive rop := Direct (o : cop) | Cached (o : cop).
+Definition body (r : rop) : cop := match r with Direct o | Cached o => o end.
+Definition from_cache (r : rop) : bool := match r with Cached _ => true | Direct _ => false end.
+Definition uncached (r : rop) : rop := Direct (body r).
+
+Section Source.
+Variable k : consts.
+Variable escalate : bool.
+Variable pol : purge_policy.
+
+Definition attempt_src (cached : bool) (s : tst) (t : Z) (c : code) : tst * outcome :=
+  let (r, o) := attempt k escalate (thr s) t (verdict_of_code s c) in
+  match o, c with
+  | EvalOk, Matches n => ({| thr := r; mem := n; persisted := if cached then persisted s else n |}, o)
+  | _, _ => ({| thr := r; mem := mem s; persisted := persisted s |}, o)
+  end.
+
+Definition step_src (s : tst) (r : rop) : tst * option outcome :=
+  match body r with
+  | CAtt t c => let (s1, o) := attempt_src (from_cache r) s t c in (s1, Some o)
+  | CCleanup now => ({| thr := cleanup k pol (thr s) now; mem := mem s; persisted := persisted s |}, None)
+  end.
+
+Fixpoint run_src (s : tst) (h : list rop) : tst * list (option outcome) :=
+  match h with
+  | [] => (s, [])
+  | r :: rest => let (s1, x) := step_src s r in
+                 let (s2, xs) := run_src s1 rest in (s2, x :: xs)
+  end.
+
+(* the history as the throttle sees it: every code replaced by what the guard makes of it there *)
+Definition resolve_op (s : tst) (r : rop) : op :=
+  match body r with CAtt t c => Att t (verdict_of_code s c) | CCleanup now => Cleanup now end.
+Fixpoint resolve (s : tst) (h : list rop) : list op :=
+  match h with
+  | [] => []
+  | r :: rest => resolve_op s r :: resolve (fst (step_src s r)) rest
+  end.
+End Source.
+
+(* the shape the property excludes (only for the refutation in Props/C14.v): a wrong code measured
+   against a profile from the cache returns before the failure bookkeeping *)
+Definition attempt_src_lenient (k : consts) (escalate cached : bool) (s : tst) (t : Z) (c : code) : tst * outcome :=
+  let (s1, o) := attempt_src k escalate cached s t c in
+  match o with
+  | EvalFail => if cached
+                then ({| thr := {| last_check := t; fail_count := fail_count (thr s); last_fail := last_fail (thr s); lockout := lockout (thr s) |};
+                         mem := mem s; persisted := persisted s |}, EvalFail)
+                else (s1, o)
+  | _ => (s1, o)
+  end.
+Fixpoint run_src_lenient (k : consts) (escalate : bool) (s : tst) (h : list rop) : tst * list (option outcome) :=
+  match h with
+  | [] => (s, [])
+  | r :: rest =>
+      match body r with
+      | CAtt t c => let (s1, o) := attempt_src_lenient k escalate (from_cache r) s t c in
+                    let (s2, xs) := run_src_lenient k escalate s1 rest in (s2, Some o :: xs)
+      | CCleanup _ => let (s2, xs) := run_src_lenient k escalate s rest in (s2, None :: xs)
+      end
+  end.
